@@ -412,6 +412,15 @@ StageClausesW(s, e, t, connS, connT) ==
     Cl("C09_StagedUnknown", {"C09"}, isRestoreS /\ \E a \in ArgSet(e) : SelStaged(s, a) = {},
         isRestoreS /\ (\E a \in ArgSet(e) : SelStaged(s, a) = {}) =>
             Refused(e) /\ (SelStaged(s, e.paths[1]) = {} => Unchanged(s, t))),
+    (* write-tree stores the nested trees of the staging area and prints the id of the root: the printed id names a *)
+    (* stored tree that flattens back to the staging area, and nothing else changes                                  *)
+    Cl("C01_WriteTree", {"C01", "C05"}, e.ev = "writetree" /\ Ok(e) /\ S.idx.ok /\ "out" \in DOMAIN e,
+        e.ev = "writetree" /\ Ok(e) /\ S.idx.ok /\ "out" \in DOMAIN e =>
+            LET id == e.out.esc IN
+            /\ IsTree(T, id)
+            /\ Flatten(T, id) = IdxPairs(S.idx)
+            /\ \A tid \in TreesOf(T, id) : IsTree(T, tid) /\ TreeWellFormed(Obj(T, tid))
+            /\ T.idx = S.idx /\ T.refs = S.refs /\ T.head = S.head /\ T.wt = S.wt),
     Cl("C17_NoIgnoredStaged", {"C17"}, e.ev = "add" /\ IsCmd(e),
         e.ev = "add" /\ IsCmd(e) =>
             \A x \in IdxPairs(T.idx) \ IdxPairs(S.idx) : ~InMeta(x[1]) /\ ~MustIgnore(S, x[1])),
